@@ -321,16 +321,59 @@ func poolStrings(p []dec.D) []string {
 	return out
 }
 
+// digitSweepCase: coefficients just below a power of ten with d digits (where
+// any bit-length based digit-count estimate is most fragile), compared with
+// the same value written with one more trailing zero and a smaller exponent
+// (a cohort pair: Cmp must be 0) and with neighbours one unit away.
+func digitSweepCase(t *mon.T, d int64) {
+	nines := new(big.Int).Sub(dec.Pow10(d), bOne)
+	x := dec.D{Form: dec.Finite, Neg: t.Rng.Bool(), C: nines, E: 0}
+	if t.Rng.Bool() && d > 8 {
+		// leading nines, random tail
+		x.C = new(big.Int).Sub(nines, big.NewInt(t.Rng.Range(0, 99999)))
+	}
+	ys := []dec.D{
+		{Form: dec.Finite, Neg: x.Neg, C: new(big.Int).Mul(x.C, bTen), E: -1},                               // equal value, cohort
+		{Form: dec.Finite, Neg: x.Neg, C: new(big.Int).Add(new(big.Int).Mul(x.C, bTen), bOne), E: -1},       // slightly larger magnitude
+		{Form: dec.Finite, Neg: x.Neg, C: big.NewInt(1), E: d},                                                // 10^d: larger magnitude
+		{Form: dec.Finite, Neg: x.Neg, C: new(big.Int).Sub(new(big.Int).Mul(x.C, dec.Pow10(3)), bOne), E: -3}, // slightly smaller magnitude
+	}
+	ax := br.ToApd(x)
+	for _, y := range ys {
+		ay := br.ToApd(y)
+		want := dec.Cmp(x, y)
+		got, rev := ax.Cmp(ay), ay.Cmp(ax)
+		ct := ax.CmpTotal(ay)
+		t.EvalN(3)
+		wantT := refCmpTotal(x, y)
+		if got != want || rev != -want || ct != wantT {
+			t.Fail("cmp-wrong", map[string]interface{}{"kind": "digit-sweep", "digits": d, "x": x.String(), "y": y.String(), "cmp": got, "reverse": rev, "cmptotal": ct, "want": want, "want_total": wantT})
+			return
+		}
+	}
+	t.Count("pair/digit-sweep")
+	t.Nontrivial(fmt.Sprintf("ds|%d|%v", d, x.Neg))
+}
+
 func runC15(r *mon.Run) {
 	r.Rule = "pairs engineered for each path of Cmp: equal exponents; different adjusted magnitudes; equal digit-count+exponent sums with equal or " +
 		"one-unit-different aligned coefficients; cohorts (equal value, different exponent); zeros of either sign and any exponent; " +
 		"infinities; exponent gaps of hundreds to tens of thousands; NaN/sNaN of either sign. Decimal.Cmp and Context.Cmp are compared with " +
 		"the exact comparison on big integers, CmpTotal with the documented ranking; antisymmetry, reflexivity, zero-iff-identical, and " +
-		"transitivity on pools of 7 values (sorted-chain consistency plus explicit triples). distinct_nontrivial = distinct pairs that " +
+		"transitivity on pools of 7 values (sorted-chain consistency plus explicit triples); a digit-count sweep compares, for every " +
+		"coefficient length d up to 3000 (quick; 160 sampled lengths up to 120000) / every d up to 120000 (thorough), a nines-leading d-digit " +
+		"coefficient with its cohort twin and three neighbours. distinct_nontrivial = distinct pairs that " +
 		"reach the rescaled comparison or are cohort pairs, and distinct pools."
 	r.Assumptions = []string{"math/big is correct", "NaN payload ordering is held only to the order axioms"}
 	r.Parallel("pairs", r.N(400000, 40000000), cmpCase)
 	r.Parallel("triples", r.N(60000, 5000000), tripleCase)
+	// every digit count up to 3000 (quick) / 120000 (thorough), plus a sample of larger ones in quick
+	sweepTo := r.N(3000, 120000)
+	r.Parallel("digit-sweep", sweepTo, func(t *mon.T) { digitSweepCase(t, t.Index+1) })
+	if r.Quick() {
+		r.Parallel("digit-sweep-sampled", 160, func(t *mon.T) { digitSweepCase(t, t.Rng.Range(3001, 120000)) })
+	}
+	r.Extra("digit_sweep_every_digit_count_up_to", sweepTo)
 	for _, k := range []string{"pair/equal-exponent", "pair/aligned-compare", "pair/cohort", "pair/zeros", "pair/infinities", "pair/large-gap", "pair/specials", "triples"} {
 		r.Require(k, 1000)
 	}
